@@ -410,7 +410,7 @@ theorem allBeforeEnd_eq_stdoutOf : ∀ (rs : List Rec),
     have ih' := ih (fun q hq => h q (List.mem_cons_of_mem _ hq))
     unfold allBeforeEnd stdoutOf at ih' ⊢
     by_cases h3 : r.typ = 3
-    · simp [List.takeWhile_cons, h3]
+    · simp [h3]
     · have hb : (r.typ != 3) = true := by simpa using h3
       simp only [List.takeWhile_cons, hb, if_true, List.map_cons, List.flatten_cons, List.filter_cons]
       rcases h r (List.mem_cons_self ..) with h6 | h3' | he
@@ -420,5 +420,9 @@ theorem allBeforeEnd_eq_stdoutOf : ∀ (rs : List Rec),
         · simp [h6, ih']
         · have : (r.typ == 6) = false := by simpa using h6
           simp [this, he, ih']
+
+/-- a 65493-byte string (one byte more than fits beside an empty name / value) for the witnesses -/
+def big : Bytes := List.replicate 65493 0
+theorem big_length : big.length = 65493 := List.length_replicate ..
 
 end BfeVerif.C55
